@@ -79,6 +79,8 @@ class Parameter(Immutable):
             upper = float('inf')
         else:
             upper = float(upper)
+        if np.isnan(lower) or np.isnan(upper):
+            raise ValueError('Bounds cannot be NaN')
         if init < lower:
             raise ValueError(f'Lower bound {lower} cannot be greater than init {init}')
         if init > upper:
